@@ -2,6 +2,7 @@ package main
 
 import (
 	"bytes"
+	"errors"
 	"fmt"
 	"io"
 	"os"
@@ -173,6 +174,26 @@ func errOfKind(kind string) error {
 	return customErr{}
 }
 
+// errID names which of the injectable error values err is (observation for the drift-level detail
+// "which error does a failed read surface as")
+func errID(err error) string {
+	if err == nil {
+		return ""
+	}
+	for _, k := range []string{"EOF", "UEOF", "EINTR", "EAGAIN", "temporary", "noprogress", "shortbuffer", "closedpipe", "deadline", "custom"} {
+		if err == errOfKind(k) {
+			return k
+		}
+	}
+	if errors.Is(err, io.EOF) {
+		return "wrappedEOF"
+	}
+	if errors.Is(err, bip39.ErrWordLen) {
+		return "wordlen"
+	}
+	return "other"
+}
+
 // scriptReader follows a script; every Read is recorded as a Read event.
 type scriptReader struct {
 	script []rstep
@@ -209,7 +230,7 @@ func (s *scriptReader) Read(p []byte) (int, error) {
 func recNewMnemonic(n int64, lang int64, extra Event) (out string, err error) {
 	emit(merge(Event{"op": "NewMnemonicCall", "n": bigRec(n), "lang": langField(lang)}, extra))
 	o := guarded(func() { out, err = bip39.NewMnemonic(int(n), bip39.Language(lang)) })
-	e := Event{"op": "NewMnemonic", "n": bigRec(n), "lang": langField(lang), "out": units(out), "err": errRec(err)}
+	e := Event{"op": "NewMnemonic", "n": bigRec(n), "lang": langField(lang), "out": units(out), "err": errRec(err), "errid": errID(err)}
 	emit(merge(o.into(e), extra))
 	return
 }
